@@ -220,7 +220,8 @@ err_t beltDWPWrap(void* dest, octet mac[8], const void* src1, size_t count1,
 		!memIsValid(key, len) ||
 		!memIsValid(iv, 16) ||
 		!memIsValid(dest, count1) ||
-		!memIsValid(mac, 8))
+		!memIsValid(mac, 8) ||
+		!memIsDisjoint2(dest, count1, mac, 8))
 		return ERR_BAD_INPUT;
 	// создать состояние
 	state = blobCreate(beltDWP_keep());
